@@ -27,7 +27,7 @@ CFG = {
     },
     "n": {"quick": 1500, "thorough": 60000},
     "exhaustive": {"quick": False, "thorough": True},
-    "rule": "corpus (17 hand-built + 25 sampled scenes + 35 wide-literal scenes + 30 cases on restricted views + 42 minimal length-target scenes); "
+    "rule": "corpus (17 hand-built + 25 sampled scenes + 35 wide-literal scenes + 30 cases on restricted views + 42 minimal length-target scenes + 83 identifier-boundary cases); "
             "EVERY case below is run twice: on a plain ParseBuffer and (case tag `vw`) on a RESTRICTED VIEW whose window is the case's buffer inside a larger allocation - bytes in front of the window "
             "1 / 7 / 11 / 1000 (also 0, 2, 3, 5, 13, 64; a header and complete objects, or random bytes) x chain of restrictions {RestrictView, RestrictViewFrom, From then View, View then View with junk "
             "on both sides of the inner window, View then From, View starting at 0 then From, View-From-View} x bytes behind the window that CONTINUE the scene {filler up to a declared length that runs beyond the "
@@ -40,6 +40,12 @@ CFG = {
             "+-(2^127-1), +-2^127, 2^128+len, 10^39) x {direct (plain / `+` / leading zeros / `-`), value of the object referenced by /Length (defined before), forward reference then re-parse}, "
             "all with valid framing so that the verdict depends on the length alone; plus numbers above 2^63-1 as object number / generation of the reference and of the `n g obj` header "
             "(quick: 4 payloads, thorough: 10); "
+            "IDENTIFIER BOUNDARIES (an identifier is the PAIR (object number, generation), each component anywhere in 0 .. 2^63-1; look-up by the exact pair): generations {0,1,65535,65536,65537,2^31,2^32,2^48,2^63-1} x "
+            "object numbers {0,1,2^16,2^31,2^32,2^47,2^48,2^48+1,2^63-1}, all 81 identifiers in every identifier position (the `/Length n g R` reference while undefined -> needs more context, then defined, then the stream re-parsed -> accepted; "
+            "the stream object's own header, also under generation g+1), and every PAIR (a, b) of distinct identifiers that collide under a narrower key - packings (n<<k)|g and (n<<k)+g into a u64 for k = 16, 32, generation cut to 16 / 32 bits, "
+            "number cut to 16 / 32 / 48 bits - taken over the 81 boundary identifiers and 21 identifiers built to hit (7,0) / (7,1) such as (6,65536), (7,65536), (7,2^32), (7+2^32,0), (7+2^48,0): per pair {only b defined, /Length a R -> needs more context; "
+            "only a defined, /Length b R -> the same; both defined with different values in either order -> no duplicate, each keeps its value, exactly one frames the data; the stream object itself carries a and its length is object b -> accepted, no duplicate; "
+            "forward: /Length a R with only b defined, then a, then the stream again} (quick: 1 payload, every second forward case; thorough: 3 payloads); "
             "the object referenced by `/Length 7 0 R`, of EVERY kind (values: Spec/FramingKinds.lean; expectation: Framing.resolve = the executable LenRes, no new clause), each DEFINED in the context before the stream is parsed "
             "and, second variant, after a first parse of the stream (needs more context) followed by a re-parse under another number: integers (len, len+1, len+7, -len, -(len+1), 2^63-1, -2^63, 2^63, 2^64+len, -(2^64-len), 2^127+len), "
             "reals `len.0` `len.5` `-len.0` `+len.00`, true, false, null, name `/len`, literal string `(len)`, hexadecimal string, array `[len]`, dictionary `<</Length len>>`, the seven values of the older table, "
